@@ -41,6 +41,13 @@ def forms(c):
     return [("unquoted", "vmk 0 3 ; vpa %s" % w), ("dq", 'vmk 0 3 ; vpa "%s"' % w), ("sq", "vmk 0 3 ; vpa '%s'" % w)]
 
 
+def restated(c):
+    """the same environment reached by a history instead of being inherited: every name first gets a stale shell-local value and
+    is then exported with its current value - the expansion must see the current one"""
+    pre = " ; ".join("%s=stale ; export %s='%s'" % (n, n, v) for n, v in sorted(c["env"].items()))
+    return "%s ; vmk 0 3 ; vpa \"%s\"" % (pre, c["word"])
+
+
 def expected_args(c, form, ppid):
     if form == "sq":
         return [[c["word"]]]
@@ -91,6 +98,11 @@ def runner(rep, tier, seed, replay):
         for form, line in forms(c):
             jobs.append({"entry": "c", "text": line, "env": c["env"], "timeout": 4, "want_files": False})
             meta.append((c, form, line))
+    # current values (not stale ones): a sample of the cases with the environment built by assignments + export in the line itself
+    hist = [c for c in cases if c["env"] and not any("'" in v for v in c["env"].values())]
+    for c in rnd.sample(hist, min(len(hist), 300 if tier == "quick" else 3000)):
+        jobs.append({"entry": "c", "text": restated(c), "env": {}, "timeout": 4, "want_files": False})
+        meta.append((c, "dq", restated(c)))
     results = run_cases(jobs)
     # hangs are re-run once with a 10x budget before they are called violations
     slow = [i for i, res in enumerate(results) if res.get("timed_out")]
